@@ -1201,4 +1201,39 @@ example : ((Pandora.Model.C07.uripostPass true [53, 32, 47, 112, 10, 104, 101, 1
     fun a => (a.method, a.url, a.body)) = [(Pandora.Model.C07.postBytes, [47, 112], [104, 101, 108, 108, 111])] := by
   decide +kernel
 
+open Pandora.Proofs.C09R6 in
+/-- **http/json entity → wire.** For every entity C07's JSON reader yields (any members) that its decoder model accepts: what
+C07's model hands to `Ammo.Setup` (method, `http://` + host + uri, body) together with the header map Scan / readArray build
+(`headers` option cloned, the entity's `headers` members Set over it) is exactly what C09's `buildReq .jsonline` starts from — so
+`C09_precedence`, `C09_unchanged`, `C09_json_sequence` speak about the ammo of C07's model; and a header lookup in that map is the
+entity's own header map first (C07's `hdrs`), the option second. An entity C07's model refuses (bad method) is refused by
+C09's `scanJson` too. -/
+theorem C09_json_entity_to_wire (e : Pandora.Model.C07.Entity) (a : Pandora.Model.C07.Ammo)
+    (h : Pandora.Model.C07.entityAmmo e = .ok a) (conf : Hdr) :
+    buildAmmo (toStr a.method) (toStr a.url) (toStr a.body) (mergeJson conf (jsonLines e)) =
+        buildReq .jsonline conf (jsonLines e) (jsonEntry e) ∧
+      validMethod (jsonEntry e).method = true ∧
+      (∀ n, hget (mergeJson conf (jsonLines e)) n = match hget (toHdr a.hdrs) n with
+        | some x => some x
+        | none => hget conf n) := by
+  obtain ⟨h1, h2, h3, h4, h5⟩ := entityAmmo_json e a h
+  refine ⟨?_, h5, ?_⟩
+  · simp only [buildReq, h1, h2, h3]
+  · intro n
+    rw [h4, mergeJson_eq, hget_commonOf, hget_commonOf]
+    cases lastOf (valsOf (jsonLines e) n) <;> simp [hget]
+
+open Pandora.Proofs.C09R6 in
+theorem C09_json_entity_refused (e : Pandora.Model.C07.Entity) (err : Pandora.Model.C07.Err)
+    (h : Pandora.Model.C07.entityAmmo e = .error err) (conf : Hdr) (rest : List Item) :
+    scanJson conf ({ hdrs := jsonLines e, ent := jsonEntry e } :: rest) = ([], .err) := by
+  have := entityAmmo_refused e err h
+  simp [scanJson, this]
+
+-- non-vacuity: an entity with method PUT, host h, uri /p, one header member x-a: accepted by C07's model, Setup gets `http://h/p`
+open Pandora.Proofs.C09R6 in
+example : (Pandora.Model.C07.entityAmmo (⟨[104], [80, 85, 84], [47, 112], [], [98], [([120, 45, 97], [102])]⟩ : Pandora.Model.C07.Entity)).toOption.map
+      (fun a => (toStr a.url, toHdr a.hdrs)) =
+    some ([104, 116, 116, 112, 58, 47, 47, 104, 47, 112], [([88, 45, 65], [[102]])]) := by decide +kernel
+
 end Pandora.Props.C09
